@@ -8,7 +8,7 @@ From Coq Require Import ZArith QArith List Bool Lia.
 Import ListNotations.
 From Inf Require Import model.RepexM proofs.RepexP proofs.FracP.
 From Inf Require model.PermM.
-From Inf Require Import model.MatchM proofs.MatchP proofs.BridgeMatchP proofs.BridgeFracP proofs.BridgeInfRetisP.
+From Inf Require Import model.MatchM proofs.MatchP proofs.BridgeMatchP proofs.BridgeFracP proofs.BridgeInfRetisP proofs.BridgeRunP.
 Open Scope nat_scope.
 
 (* one completed step credits to column c exactly the entries of P in that column over idle
@@ -82,6 +82,28 @@ Theorem C04_step_unit_code_P : forall rp f k acc rws P f' rows b0 lk' c,
   (total c f' == total c f + if is_locked (core f') c then 0 else 1)%Q.
 Proof. exact treat_unit_infretis_matchable. Qed.
 Print Assumptions C04_step_unit_code_P.
+
+(* run level (proofs/BridgeRunP.v): membership of the reachable family [Fam] (staircase rows with
+   positive weights; at most 12 plus ensembles, or one weight per path) is an invariant of every
+   certified run whose result rows are well shaped ([RowsGood]: a [0-] job returns (1,0,...,0), a
+   plus job weights that are positive on a non-empty prefix of the plus ensembles), and with the
+   matrix that the model of the code computes at every completed step ([Pcode]: inf_retis of the
+   state reached; [Pcode_pre]: of the state before re-sorting, which is where repex.py evaluates
+   self.prob) the data rows plus the live records sum, per column, to the number of completed steps
+   at which the column was idle *)
+Theorem C04_conservation_code_P : forall rp ops f fe,
+  InvM f -> FInv f -> Fam (core f) -> run_m f ops = Some fe -> Pcode rp f ops -> RowsGood f ops ->
+  forall c f' k, idle_steps c f (map fst ops) = Some (f', k) ->
+  (total c f' == total c f + inject_Z (Z.of_nat k))%Q /\ FInv f' /\ InvF f'.
+Proof. exact conservation_code_P. Qed.
+Print Assumptions C04_conservation_code_P.
+
+Theorem C04_conservation_code_P_presort : forall rp ops f fe,
+  InvM f -> FInv f -> Fam (core f) -> run_m f ops = Some fe -> Pcode_pre rp f ops -> RowsGood f ops ->
+  forall c f' k, idle_steps c f (map fst ops) = Some (f', k) ->
+  (total c f' == total c f + inject_Z (Z.of_nat k))%Q /\ FInv f' /\ InvF f'.
+Proof. exact conservation_code_P_presort. Qed.
+Print Assumptions C04_conservation_code_P_presort.
 
 (* non-vacuity: a 3-ensemble system, a zero swap and a second job, completions out of order
    with doubly stochastic matrices as P (examples with the exact permanent ratios and with the P
